@@ -11,7 +11,7 @@ import (
 // C10 — per-document processing.
 
 func init() {
-	register("C10", "Decides structural necessary conditions of 'documents are processed one by one, in order, independently, with true provenance': (S1) in streamEvaluator.Evaluate and readDocuments every path from a successful Decode to the use of the node passes the three provenance stores (document, filename, fileIndex) with the right sources, the document counter is a loop-carried value incremented exactly once per iteration after the document was consumed, the file counter once per file; (S2) the Context given to GetMatchingNodes in the per-document loop is built from a list created inside the iteration, and PrintResults is called once per iteration on that evaluation's result; (S3, engine E1) the shared expression tree carries nothing from one evaluation to the next: handlers store into objects reached from their expressionNode parameter only document-independent values that are written before they are read, and no handler returns a node of the expression tree itself (literals are copied on use); (S4) every decoder field written by Decode is reset by Init. Does NOT decide separator placement nor eval/eval-all agreement.", runC10)
+	register("C10", "Decides structural necessary conditions of 'documents are processed one by one, in order, independently, with true provenance': (S1) in streamEvaluator.Evaluate and readDocuments every path from a successful Decode to the use of the node passes the three provenance stores (document, filename, fileIndex) with the right sources, the document counter is a loop-carried value incremented exactly once per iteration after the document was consumed, the file counter once per file; (S2) the Context given to GetMatchingNodes in the per-document loop is built from a list created inside the iteration, and PrintResults is called once per iteration on that evaluation's result; (S3, engine E1) the shared expression tree carries nothing from one evaluation to the next: handlers store into objects reached from their expressionNode parameter only document-independent values that are written before they are read, and no handler returns a node of the expression tree itself (literals are copied on use); (S4) every decoder field written by Decode is reset by Init. (S7) printedMatches is never read to decide what is printed; handed-over encoder fields are stored on every path. Does NOT decide separator placement nor eval/eval-all agreement.", runC10)
 }
 
 func runC10(c *Ctx) {
